@@ -106,7 +106,8 @@ def gen_fast_case(rng, malformed=False, small=False, big=False):
              for k in range(T)]
     draws = [valid_draws(rng, sum(r[k] for r in jds)) for k in range(T)] if jds else []
     return {"kind": "fast", "jds": jds, "sizes": sizes, "builds": builds, "names": names, "draws": draws,
-            "handshake": not malformed, "as_tuple": [rng.random() < 0.4 for _ in builds]}
+            "handshake": not malformed, "as_tuple": [rng.random() < 0.4 for _ in builds],
+            **({"reenter": rng.randrange(T)} if rng.random() < 0.12 and not big and not malformed else {})}
 
 
 def gen_custom_case(rng, malformed=False, small=False):
@@ -168,7 +169,8 @@ def gen_custom_case(rng, malformed=False, small=False):
     draws = [valid_draws(rng, sum(r[k] for r in jds)) for k in range(col)]
     return {"kind": "custom", "jds": jds, "sizes": sizes, "orbits": orbits, "builds": builds, "names": names,
             "draws": draws, "handshake": not malformed, "as_tuple": [rng.random() < 0.4 for _ in builds],
-            "names_iter": [rng.random() < 0.25 for _ in builds]}
+            "names_iter": [rng.random() < 0.25 for _ in builds],
+            **({"reenter": rng.randrange(M)} if rng.random() < 0.12 and not malformed else {})}
 
 
 class ShuffleScript:
@@ -232,8 +234,21 @@ def run_generator(case, path="direct", algo=None):
 
     as_tuple = case.get("as_tuple") or []
 
+    depth = {"d": 0, "done": False}
+    holder = {}
+
     def wrap(k, f):
         def g(vs):
+            if depth["d"] > 0:
+                return f(vs)             # inside the nested generation: not part of the observed run
+            if case.get("reenter") == k and "algo" in holder and sum(map(sum, case["jds"])) <= 40:
+                # a hierarchical model: every motif of this topology has its builder draw an inner graph from the same generator
+                # object before it returns its own edges; the generations are separate runs and must not influence each other
+                depth["d"], depth["done"] = 1, True
+                try:
+                    holder["algo"].random_clustered_graph(tuplify(case["jds"]))
+                finally:
+                    depth["d"] = 0
             r = f(vs)
             if k < len(as_tuple) and as_tuple[k] and not _is_bare(r):
                 r = tuple(tuple(e) for e in r)        # the same edges, handed back as a tuple of tuples instead of a list
@@ -264,6 +279,7 @@ def run_generator(case, path="direct", algo=None):
     else:
         params[GN.GCM_TYPE] = typ.value
         algo_obj = GCMAlgorithmMain.load_gcm_algorithm(params)
+    holder["algo"] = algo_obj
     sem = GenRandom(case["jds"], case["draws"])
     script = sem.script
     with installed(sem):
